@@ -4,6 +4,7 @@
 //! count, final buffer / sink, bytes taken from the reader, final capacity).
 //!
 //! usage: iohelp run <cases.ndjson>      one JSON line per case on stdout
+//!        iohelp pipe <seed> <rounds>    the helpers on a tiny_std File over a kernel pipe, real EINTR / short transfers
 //!        iohelp print <seed> <rounds>   the print macros' writer path (unix/print.rs), see print_path
 //!
 //! case: {"op":..,"script":[{"t":..,"k":..}],"data":[..],"init":[..],"cap0":N,"n":N,"pieces":[..],
@@ -412,6 +413,142 @@ fn print_path(seed: u64, rounds: usize) {
     out.flush();
 }
 
+// ------------------------------------------------------------------------------------------
+// The helpers over a REAL descriptor: tiny_std::fs::File on a kernel pipe.  A peer thread feeds /
+// drains the pipe in random small pieces with pauses while signals (handler without SA_RESTART)
+// hit the calling thread, so read(2)/write(2) really return short counts and EINTR, and the
+// errno travels through rusl::Error -> tiny_std::Error -> matches_errno(EINTR).  No other error
+// can occur, so the helpers must succeed and move every byte.
+fn pipe_path(seed: u64, rounds: usize) {
+    use std::sync::atomic::{AtomicBool, Ordering};
+    use std::sync::Arc;
+    let mut rng = vharness::Rng::new(seed ^ 0x5eed);
+    unsafe {
+        let mut sa: libc::sigaction = core::mem::zeroed();
+        sa.sa_sigaction = on_sig as usize;
+        sa.sa_flags = 0;
+        libc::sigaction(libc::SIGUSR1, &sa, core::ptr::null_mut());
+    }
+    let me = unsafe { libc::pthread_self() } as usize;
+    let mut out = Out::new();
+    let kinds = ["read_to_end", "read_to_string", "read_exact", "write_all", "write_fmt"];
+    let lens = [0usize, 1, 31, 32, 33, 64, 1000, 5000, 40000];
+    let mut idx = 0usize;
+    for _round in 0..rounds {
+        for &len in &lens {
+            for kind in kinds {
+                idx += 1;
+                let text = pattern(len, idx);
+                let stream: Vec<u8> = text.as_bytes().to_vec();
+                let mut fds = [0i32; 2];
+                unsafe {
+                    assert_eq!(0, libc::pipe(fds.as_mut_ptr()));
+                    libc::fcntl(fds[1], libc::F_SETPIPE_SZ, 4096);
+                }
+                let done = Arc::new(AtomicBool::new(false));
+                let sig = {
+                    let done = done.clone();
+                    let period = 60 + rng.below(200);
+                    std::thread::spawn(move || {
+                        let mut fired = 0u32;
+                        while !done.load(Ordering::SeqCst) {
+                            std::thread::sleep(std::time::Duration::from_micros(period));
+                            unsafe { libc::pthread_kill(me as libc::pthread_t, libc::SIGUSR1) };
+                            fired += 1;
+                        }
+                        fired
+                    })
+                };
+                let chunk_seed = rng.next();
+                let is_read = kind.starts_with("read");
+                let (ok, count, got): (bool, i64, Vec<u8>) = if is_read {
+                    let wfd = fds[1];
+                    let src = stream.clone();
+                    let feeder = std::thread::spawn(move || {
+                        let mut r = vharness::Rng::new(chunk_seed);
+                        let mut o = 0usize;
+                        while o < src.len() {
+                            let m = *r.pick(&[1u64, 3, 33, 700, 5000]);
+                            let n = (1 + r.below(m)) as usize;
+                            let n = n.min(src.len() - o);
+                            let w = unsafe { libc::write(wfd, src[o..].as_ptr().cast(), n) };
+                            assert!(w > 0);
+                            o += w as usize;
+                            if r.below(3) == 0 {
+                                std::thread::sleep(std::time::Duration::from_micros(30 + r.below(300)));
+                            }
+                        }
+                        std::thread::sleep(std::time::Duration::from_micros(200));
+                        unsafe { libc::close(wfd) };
+                    });
+                    let mut f = unsafe { tiny_std::fs::File::from_raw_fd(rusl::platform::Fd::try_new(fds[0]).unwrap()) };
+                    let init = "init-é-";
+                    let res = guarded(|| match kind {
+                        "read_to_end" => {
+                            let mut v = Vec::with_capacity(if len % 2 == 0 { init.len() } else { init.len() + len });
+                            v.extend_from_slice(init.as_bytes());
+                            let r = f.read_to_end(&mut v);
+                            (r.is_ok(), r.map(|x| x as i64).unwrap_or(-1), v[init.len().min(v.len())..].to_vec())
+                        }
+                        "read_to_string" => {
+                            let mut st = String::from(init);
+                            let r = f.read_to_string(&mut st);
+                            (r.is_ok(), r.map(|x| x as i64).unwrap_or(-1), st.as_bytes()[init.len().min(st.len())..].to_vec())
+                        }
+                        _ => {
+                            let mut b = vec![0u8; len];
+                            let r = f.read_exact(&mut b);
+                            (r.is_ok(), len as i64, b)
+                        }
+                    });
+                    drop(f); // closes the read end
+                    feeder.join().unwrap();
+                    res.unwrap_or((false, -2, vec![]))
+                } else {
+                    let rfd = fds[0];
+                    let drain = std::thread::spawn(move || {
+                        let mut r = vharness::Rng::new(chunk_seed);
+                        let mut got: Vec<u8> = vec![];
+                        let mut buf = [0u8; 3000];
+                        loop {
+                            let m = *r.pick(&[1u64, 40, 900, 3000]);
+                            let want = (1 + r.below(m)) as usize;
+                            let n = unsafe { libc::read(rfd, buf.as_mut_ptr().cast(), want.min(buf.len())) };
+                            if n <= 0 {
+                                break;
+                            }
+                            got.extend_from_slice(&buf[..n as usize]);
+                            if r.below(3) == 0 {
+                                std::thread::sleep(std::time::Duration::from_micros(30 + r.below(200)));
+                            }
+                        }
+                        unsafe { libc::close(rfd) };
+                        got
+                    });
+                    let mut f = unsafe { tiny_std::fs::File::from_raw_fd(rusl::platform::Fd::try_new(fds[1]).unwrap()) };
+                    let res = guarded(|| match kind {
+                        "write_all" => f.write_all(&stream).is_ok(),
+                        _ => {
+                            let h = len / 2;
+                            f.write_fmt(format_args!("{}{}", &text[..h], &text[h..])).is_ok()
+                        }
+                    });
+                    drop(f); // closes the write end -> the drain sees end of file
+                    let got = drain.join().unwrap();
+                    (res.unwrap_or(false), len as i64, got)
+                };
+                done.store(true, Ordering::SeqCst);
+                let fired = sig.join().unwrap();
+                let common = got.iter().zip(stream.iter()).take_while(|(a, b)| a == b).count();
+                let mismatch: i64 = if got == stream { -1 } else { common as i64 };
+                out.ev(&json!({"op":"pipe","kind":kind,"len":len,"rlen":got.len(),"mismatch":mismatch,
+                    "ok": i32::from(ok), "count": count, "signals": fired}));
+            }
+        }
+    }
+    out.flush();
+}
+
 fn main() {
     quiet_panics();
     let args: Vec<String> = std::env::args().collect();
@@ -429,6 +566,10 @@ fn main() {
                 r["i"] = json!(i);
                 out.ev(&r);
             }
+        }
+        Some("pipe") => {
+            pipe_path(args[2].parse().unwrap(), args[3].parse().unwrap());
+            return;
         }
         Some("print") => {
             print_path(args[2].parse().unwrap(), args[3].parse().unwrap());
